@@ -391,3 +391,67 @@ def _inf(interp, args, kwargs):  # pragma: no cover - attribute, not a call
 
 #: attribute-valued externals (not calls)
 EXT_VALUES = {'numpy.inf': float('inf'), 'numpy.nan': float('nan')}
+
+
+# ---------------------------------------------------------------------------------------------
+# ghost model of the global NumPy generator (C09): the state is an abstract value
+# ---------------------------------------------------------------------------------------------
+RngState = z3.DeclareSort('RngState')
+seeded = z3.Function('rng_seeded', z3.IntSort(), RngState)        # state after np.random.seed(k)
+key_word = z3.Function('rng_key_word', RngState, z3.IntSort(), z3.IntSort())   # k-th word of the key array of a state
+
+
+class GhostRngState(Model):
+    """the tuple returned by np.random.get_state(): ('MT19937', key array, pos, has_gauss, cached)"""
+
+    def __init__(self, term):
+        self.term = term
+
+    def sym_getitem(self, ctx, idx):
+        if idx == 1:
+            return GhostRngKey(self.term)
+        raise Unsupported('component of the generator state')
+
+
+class GhostRngKey(Model):
+    def __init__(self, term):
+        self.term = term
+
+    def sym_getitem(self, ctx, idx):
+        if is_intlike(idx):
+            return SInt(key_word(self.term, to_int_term(idx)), 'npint')
+        raise Unsupported('key index')
+
+
+def rng_now(ctx):
+    if 'RNG' not in ctx.ghost:
+        ctx.ghost['RNG'] = z3.Const('RNG0', RngState)
+        ctx.ghost['RNG_initial'] = ctx.ghost['RNG']
+    return ctx.ghost['RNG']
+
+
+@model('numpy.random.get_state', 'np.random.get_state(): the current state of the global generator (ghost RNG), no effect')
+def _get_state(interp, args, kwargs):
+    if args or kwargs:
+        raise Unsupported('get_state arguments')
+    return GhostRngState(rng_now(interp.ctx))
+
+
+@model('numpy.random.seed', 'np.random.seed(k): the global generator state becomes a function of the integer k only')
+def _seed(interp, args, kwargs):
+    (k,) = args
+    rng_now(interp.ctx)
+    if not is_intlike(k):
+        raise Unsupported('np.random.seed of a non-integer')
+    interp.ctx.ghost['RNG'] = seeded(to_int_term(k))
+    return None
+
+
+@model('numpy.random.set_state', 'np.random.set_state(s): the global generator state becomes exactly s')
+def _set_state(interp, args, kwargs):
+    (st,) = args
+    rng_now(interp.ctx)
+    if not isinstance(st, GhostRngState):
+        raise Unsupported('np.random.set_state of a value that is not a saved state')
+    interp.ctx.ghost['RNG'] = st.term
+    return None
